@@ -74,7 +74,7 @@ def broad_cases(draw, max_len=12, allow_nullable=True):
     NV = norm_view(L)
     i = draw(st.integers(0, n - 1))
     j = draw(st.integers(i + 1, min(n, i + 5)))
-    full = (False, False)
+    full = draw(st.sampled_from([(False, False), (False, False), (True, False), (False, True), (True, True)]))
     allow = frozenset(draw(st.sets(st.sampled_from(["$and", "$or", "$and_any_order", "$not", "times", "gtimes"]), max_size=4)))
     pattern = describe_window(draw, NV, i, j, full, allow=allow, max_depth=2)
     feats = set()
@@ -205,6 +205,7 @@ def broad_cases(draw, max_len=12, allow_nullable=True):
     cont = sorted(draw(st.sets(st.integers(0, len(L) - 1), max_size=3))) if draw(st.integers(0, 2)) == 0 else []
     return {
         "cont": cont,
+        "flags": list(full),
         "transparent_addr_range": draw(st.integers(0, 3)) == 0,
         "listing": L,
         "pattern": pattern,
